@@ -179,6 +179,10 @@ func runC10(r *ev.Run) {
 				ever[d.ID] = true
 				durable[d.ID] = true
 			}
+			if rng.IntN(3) == 0 {
+				s.VerifRotate() // empty writable + frozen unflushed memtable (what Train() or a rejected oversized Add leave behind)
+				r.Count("completed-flushes-with-the-writable-memtable-already-rotated-out", 1)
+			}
 			if err := s.Flush(); err != nil {
 				rep("crash.flush-error", err.Error(), nil)
 				s.Close()
@@ -447,6 +451,11 @@ func runC10(r *ev.Run) {
 				}
 				// a second restart: what the recovered store acknowledged (the new flush) and what it returned right
 				// after the crash must survive the next clean Close/Open too
+				// (quick tier: every boundary image and every fifth byte-prefix image; thorough: all)
+				if !(r.Thorough() || !strings.Contains(v.origin, "+") || vi%5 == 0) {
+					r.Eval(vi > 0 && len(durable) > 0, ev.Digest(v.img.digest()))
+					return
+				}
 				if err := rs.Close(); err != nil {
 					rep("crash.close-after-reopen-fails", fmt.Sprintf("image %s: %v", v.origin, err), wit())
 					return
@@ -683,7 +692,28 @@ func c10AckThenCrash(r *ev.Run, ctl *hookCtl) {
 		}
 		fired := ctl.fired()
 		ctl.clearTarget()
-		s.Close()
+		// the clean path too: Close() returned nil, so EVERY acknowledged add must be there after a restart, whatever
+		// the overlapping flush passes (worker + Flush()) did to the memtable queue in between
+		if cerr := s.Close(); cerr != nil {
+			rep("crash.close-error", cerr.Error(), nil)
+		} else if cs, err := p.open(dir); err != nil {
+			rep("crash.reopen-fails", "Open failed after overlapping flush passes and a clean Close: "+err.Error(), nil)
+		} else {
+			ca := searchAllModalities(cs, p)
+			cs.Close()
+			mu.Lock()
+			all := map[uint32]bool{}
+			for id := range acked {
+				all[id] = true
+			}
+			mu.Unlock()
+			if ca.Err != nil {
+				rep("crash.search-fails", "after a clean Close: "+ca.Err.Error(), nil)
+			} else if missing, _ := ca.check(all, ever); len(missing) > 0 {
+				rep("crash.acknowledged-then-closed-but-lost", fmt.Sprintf("worker and Flush() overlapped, then Close() returned nil; after reopening, acknowledged documents are missing: %v", missing), nil)
+			}
+			r.Count("ack-then-crash:clean-close-reopen", 1)
+		}
 		if !fired || img == nil {
 			if flushErr != nil {
 				rep("crash.flush-error", "Flush beside the held worker failed: "+flushErr.Error(), nil)
